@@ -146,6 +146,18 @@ check("C09",
       "TLA+ Dijkstra state machine (C09_Paths, C09_MC) model-checked incl. liveness; TLC trace validation of results and of the real priority-queue traffic (C09_Trace)",
       "DESIGN.md 6.9")
 
+check("C10",
+      "TLC runs the breadth-first tree builder (queue of (parent, child) pairs) and Kruskal (every order of equal weights) as state "
+      "machines on EVERY graph with 4 nodes, every root, weights 1..2: reached = Reach(root), |edges| = |reached|-1, depth = hop "
+      "distance, Kruskal's edge set is an acyclic spanning forest of minimum weight. The real EdgeSpanningTree, "
+      "EdgeMinimalSpanningTree, Face/CellSpanningTree and the three forests run on polylines (graphs on <= 5 vertices), enumerated "
+      "surfaces, lattices, library shapes and Kuhn volumes with all roots, random exclusion sets, border avoidance, all weight modes; "
+      "TLC rebuilds the admissible graph from the element lists (MeshCore / TetCore) and judges parent / children / edges / BFS and "
+      "DFS traversals / roots / trees relationally.",
+      "Any minimum forest and any breadth-first tree is accepted. Weights are positive integers or integer lattice lengths. Exclusion sets are sampled.",
+      "TLA+ BFS and Kruskal machines (C10_MC) model-checked over all 4-node graphs; TLC trace validation against Graph/MeshCore/TetCore (C10_Trace)",
+      "DESIGN.md 6.10")
+
 ALL = ["C%02d" % i for i in range(1, 21)]
 
 
